@@ -83,7 +83,97 @@ def _result_not_unwrapped(P, F, f, bb):
                 if a["k"] in ("copy", "move") and a["place"]["l"] == dest:
                     users.append(tt["callee"].get("path", "?"))
     bad = [u for u in users if not u.endswith(("Result::<T, E>::unwrap_or", "Result::<T, E>::is_ok", "Result::<T, E>::is_err", "Result::<T, E>::ok"))]
-    return not bad, ("result ignored or given a default (%s)" % (users or "ignored") if not bad else "result is consumed by %s" % bad)
+    if bad:
+        return False, "result is consumed by %s" % bad
+    dep = _panic_depends_on(P, f, dest)
+    if dep:
+        return False, "a panic is control-dependent on the result of try_with: %s" % dep
+    return True, "result ignored or given a default (%s); no branch on a value derived from it leads only to a panic" % (users or "ignored")
+
+
+SAFE_CONSUMERS = ("Result::<T, E>::unwrap_or", "Result::<T, E>::is_ok", "Result::<T, E>::is_err", "Result::<T, E>::ok", "Result::<T, E>::err", "Result::<T, E>::unwrap_or_default",
+                  "Option::<T>::is_some", "Option::<T>::is_none", "Option::<T>::unwrap_or", "std::mem::drop", "std::ops::Not::not")
+PANICKING = ("std::result::Result::<T, E>::unwrap", "std::result::Result::<T, E>::expect", "std::result::Result::<T, E>::unwrap_err", "std::result::Result::<T, E>::expect_err",
+             "std::option::Option::<T>::unwrap", "std::option::Option::<T>::expect")
+
+
+def _may_panic_explicitly(P, fn):
+    S = Super(P, fn, opaque=default_opaque(P.facts) - {fn.npath})
+    return sorted({n.ci["npath"] for n in S.nodes if n.ci is not None and n.ci["k"] == "call" and (n.ci["npath"] in PANICKING or n.ci["npath"].startswith("std::panicking") or (n.ci["diverges"] and "panic" in n.ci["npath"]))})
+
+
+def _panic_depends_on(P, f, local):
+    """Branches of `f` on a value derived from `local` (flow-insensitive taint over assignments and call results) one of
+    whose targets cannot reach `return`: the failure of the access would be turned into a panic."""
+    taint = {local}
+    changed = True
+    while changed:
+        changed = False
+        for b in f.blocks:
+            for st in b["stmts"]:
+                if st["k"] == "assign" and st["place"]["l"] not in taint and any(pl["l"] in taint for pl in places_of_rv(st["rv"])):
+                    taint.add(st["place"]["l"]); changed = True
+            t = b["term"]
+            if t["k"] == "call" and t.get("dest") and t["dest"]["l"] not in taint and any(a["k"] in ("copy", "move") and a["place"]["l"] in taint for a in t["args"]):
+                taint.add(t["dest"]["l"]); changed = True
+    # blocks from which `return` is reachable along normal (non-unwind) edges
+    def nsucc(t):
+        k = t["k"]
+        if k == "goto":
+            return [t["target"]]
+        if k == "switch":
+            return [tb for _, tb in t["targets"]] + [t["otherwise"]]
+        if k in ("call", "drop", "assert"):
+            return [t["target"]] if t.get("target") is not None else []
+        return []
+    preds = {}
+    for bi, b in enumerate(f.blocks):
+        for tgt in nsucc(b["term"]):
+            preds.setdefault(tgt, set()).add(bi)
+    can = {bi for bi, b in enumerate(f.blocks) if b["term"]["k"] == "return"}
+    work = list(can)
+    while work:
+        x = work.pop()
+        for p_ in preds.get(x, ()):
+            if p_ not in can:
+                can.add(p_); work.append(p_)
+    out = []
+    # calls that receive a derived value: consumers that cannot panic, or combinators whose closure / local callee cannot
+    for bi, b in enumerate(f.blocks):
+        t = b["term"]
+        if t["k"] != "call" or not any(a["k"] in ("copy", "move") and a["place"]["l"] in taint for a in t["args"]):
+            continue
+        ci = P.classify(f, bi)
+        np = ci["npath"]
+        if np in PANICKING:
+            out.append("bb%d: %s on a value derived from the result" % (bi, np))
+            continue
+        if np.endswith(SAFE_CONSUMERS):
+            continue
+        bodies = list(ci.get("closures") or [])
+        bodies += [x.id for x in ci.get("targets") or []]
+        for fid in bodies:
+            g = P.fns.get(fid)
+            if g is not None:
+                pn = _may_panic_explicitly(P, g)
+                if pn:
+                    out.append("bb%d: the value flows into %s whose callee %s can panic (%s)" % (bi, np, g.npath, pn[:2]))
+    for bi, b in enumerate(f.blocks):
+        t = b["term"]
+        if t["k"] == "switch":
+            op = t["op"]
+        elif t["k"] == "assert":
+            op = t["cond"]
+        else:
+            continue
+        if op.get("k") in ("copy", "move") and op["place"]["l"] in taint:
+            if t["k"] == "assert":
+                out.append("bb%d assert" % bi)
+                continue
+            dead = sorted({tgt for tgt in nsucc(t) if tgt not in can})
+            if dead and bi in can:
+                out.append("bb%d: target(s) bb%s never return" % (bi, dead))
+    return out
 
 
 # ---- global part: witnesses ------------------------------------------------------------------------------
